@@ -132,7 +132,7 @@ class HistGen:
             cell.append("deliv=" + ("named" if delivered == named else ("pairtok" if delivered in p.assets else "foreign")))
             op = w.op_swap_raw(actor, p, "hook", named, named_amt, delivered, delivered_amt, to=self.maybe_to(actor))
         else:
-            fmode = rng.choice(["exact", "less", "more", "absent", "extra", "other_only"])
+            fmode = rng.choice(["exact", "less", "more", "absent", "extra", "other_only", "lookalike", "other_only"])
             funds = []
             nat_named = named if named[0] == "n" else None
             if fmode == "exact" and nat_named:
@@ -152,6 +152,10 @@ class HistGen:
                 others = [a for a in w.natives if a != nat_named]
                 if others:
                     funds = [[rng.choice(others)[1], str(delivered_amt)]]
+            elif fmode == "lookalike" and nat_named and nat_named[1] in w.lookalikes:
+                funds = [[w.lookalikes[nat_named[1]], str(delivered_amt)]]
+                if actor not in ("attacker", "trader1", "trader2", "lp1"):
+                    actor = "attacker"
             cell.append("funds=" + fmode)
             op = w.op_swap_raw(actor, p, "direct", named, named_amt, None, 0, to=self.maybe_to(actor),
                                funds_override=sorted(funds))
@@ -205,6 +209,8 @@ class HistGen:
         slippage = None
         if rng.random() < 0.3:
             slippage = rng.choice([0, 1, 10 ** 15, 10 ** 16, 5 * 10 ** 16, 5 * 10 ** 17, D - 1, D, D + 1, rng.randrange(0, D)])
+            if S == 0 and rng.random() < 0.4:
+                slippage = rng.choice([D + 1, D + 10 ** 16, 2 * D, D + rng.randrange(1, D)])
         receiver = None
         if rng.random() < 0.25:
             receiver = rng.choice(self.recipients)
@@ -221,7 +227,7 @@ class HistGen:
         r0, r1 = p.reserves(led)
         d = [rel_amount(rng, r0, w.scale_bits, 1 << 100), rel_amount(rng, r1, w.scale_bits, 1 << 100)]
         nat = [i for i in (0, 1) if p.assets[i][0] == "n"]
-        mode = rng.choice(["less", "more", "absent", "zero_named", "swap_amounts", "extra", "wrong_asset"])
+        mode = rng.choice(["less", "more", "absent", "zero_named", "swap_amounts", "extra", "wrong_asset", "other_only", "lookalike"])
         funds = dict((p.assets[i][1], d[i]) for i in nat)
         if mode == "wrong_asset":
             others = [a for a in w.all_assets() if a not in p.assets]
@@ -249,6 +255,16 @@ class HistGen:
                 others = [a for a in w.natives if a not in p.assets]
                 if others:
                     funds[rng.choice(others)[1]] = rng.choice([1, d[i]])
+            elif mode == "other_only":
+                # the declared denom is absent; one unrelated coin of exactly the declared amount is attached instead
+                others = [a for a in w.natives if a not in p.assets]
+                if others:
+                    del funds[dn]
+                    funds[rng.choice(others)[1]] = d[i]
+            elif mode == "lookalike" and dn in w.lookalikes:
+                del funds[dn]
+                funds[w.lookalikes[dn]] = d[i]
+                actor = rng.choice(["attacker", "trader1", "trader2", "lp1"])
         fo = sorted([k, str(v)] for k, v in funds.items() if v > 0)
         op = w.op_provide(actor, p, d, funds_override=fo, reverse=rng.random() < 0.3,
                           receiver=rng.choice([None, None, "recv"]))
